@@ -82,6 +82,12 @@ def run(ctx):
             ks = sorted(R.sample(range(1, 4 * n), min(4 * n - 1, 5 if tier == "quick" else 120)))   # cold runs execute more lines than warm ones
             for k in ks:
                 cold_jobs.append({"A": X, "B": Y, "warm": False, "ks": [k]}); cold_meta.append((cls, X, Y, role, k))
+        # every executed line of the Settings registry constructor (the object is published before it is complete): always explored cold
+        for (cls, X, Y, role, part), r in zip(meta, res):
+            if part != 0 or cls not in ("date-order", "same-config"):
+                continue
+            for occ in range(1, 9):
+                cold_jobs.append({"A": X, "B": Y, "warm": False, "ks": [occ], "site": "dateparser/utils/__init__.py:constructor"}); cold_meta.append((cls, X, Y, role, "registry-%d" % occ))
         cold = pool.map(run_job, cold_jobs, chunksize=2)
         # sequential references for the cold runs: A alone, B alone, each in its own process
         refs = {}
@@ -136,7 +142,9 @@ def run(ctx):
         if dv["ra"] != ra0 or dv["rb"] != rb0:
             pk = tuple(sorted([json.dumps(X, sort_keys=True), json.dumps(Y, sort_keys=True)]))
             sites = sorted(set(dv["changed"]) | pair_sites.get(pk, set())) or ["(no shared variable changed)"]
-            if cls in ("same-config", "benign-settings") or not set(sites) <= known_sites:
+            if str(dv["where"]).endswith("utils/__init__.py:constructor"):
+                sites = ["Settings registry constructor"]
+            if (cls in ("same-config", "benign-settings") and sites != ["Settings registry constructor"]) or not set(sites) <= known_sites:
                 viol.append({"why": "a single preemption changes a result", "pair_class": cls, "role": role, "A": X, "B": Y, "preempt_at_line_event": k, "where": dv["where"],
                              "sequential": [ra0, rb0], "interleaved": [dv["ra"], dv["rb"]], "shared_variables_changed_by_B": dv["changed"], "process": "cold"})
             else:
